@@ -1,2 +1,170 @@
-(* C05 - placeholder while the model is validated *)
-From PV Require Import Extract.Model Extract.Spec.
+(* C05 - Epoch extraction returns exactly the requested samples, once, for any chunking.
+   Property theorems only; every proof is `exact <lemma of Extract/Proofs*.v>`.
+
+   Model.run B k fs : what extract_epochs (buffer_samples B, input kind k) shows to the outside, send by
+   send, for the schedule fs; a feed of fs = the chunk sent + what was appended to `queue` and
+   `removed_queue` before that send + whether source_complete is set.  Chunks are arbitrary lists of
+   samples of arbitrary lengths (empty chunks included): "any stream, any chunking".
+
+   wf_sched B n0 fs (Spec.v), the schedules the property quantifies over:
+     B >= 0, one epoch length n0 >= 0, distinct (t0,key),
+     every request's first sample is still in the look-back chunks (or in the future) at the send at
+     which it becomes visible [visible B fs],
+     no removal notice is processed at an earlier send than the request it names.
+   arrives fs a r      : request r is on `queue` before send #a
+   removed_at fs j k   : key k is on `removed_queue` before send #j
+   seen fs j           : number of samples sent before send #j
+   s_item stream r     : the epoch {key, metadata of r, s0 = lo, data = stream[lo : lo+n]}           *)
+From PV Require Import Extract.Model Extract.Spec Extract.ProofsRefine Extract.ProofsSpec Extract.Proofs.
+
+(* The coroutine machinery (one capture per pending epoch accumulating slices, replay over the buffered
+   prior chunks, pruning) computes, send by send, exactly what the abstract specification computes
+   (cut stream[lo, lo+n) when its last sample is in), for EVERY schedule with n >= 0: also for requests
+   beyond the look-back, duplicates, unequal lengths. *)
+Theorem C05_refines_spec : forall B k fs, Forall (fun r => 0 <= r_n r) (all_reqs fs) ->
+  run B k fs = spec_run B k fs.
+Proof. exact run_refines_spec. Qed.
+Print Assumptions C05_refines_spec.
+
+(* No send of a well-formed schedule raises; every send is answered. *)
+Theorem C05_no_error : forall B k n0 fs, wf_sched B n0 fs = true ->
+  Forall (fun o => is_err o = false) (run B k fs) /\ length (run B k fs) = length fs.
+Proof. exact no_error. Qed.
+Print Assumptions C05_no_error.
+
+(* Every request that is never removed and whose samples all arrive is delivered exactly once, and
+   the delivered epoch is exactly stream[lo, lo+n) with that request's key and metadata. *)
+Theorem C05_exact_once : forall B k n0 fs a r,
+  wf_sched B n0 fs = true -> arrives fs a r ->
+  (forall j, ~ removed_at fs j (r_key r)) ->
+  r_lo r + r_n r <= zlen (stream_of fs) ->
+  count_key (r_key r) (delivered (run B k fs)) = 1 /\
+  In (s_item (stream_of fs) r) (delivered (run B k fs)) /\
+  (forall it, In it (delivered (run B k fs)) -> i_key it = r_key r -> it = s_item (stream_of fs) r).
+Proof. exact exact_once. Qed.
+Print Assumptions C05_exact_once.
+
+(* A request removed at send #j is never delivered if its last sample had not arrived before that
+   send (or if j is the very send at which it became visible). *)
+Theorem C05_removed_never : forall B k n0 fs a j r,
+  wf_sched B n0 fs = true -> arrives fs a r -> removed_at fs j (r_key r) ->
+  ((j <= a)%nat \/ seen fs j < r_lo r + r_n r) ->
+  count_key (r_key r) (delivered (run B k fs)) = 0.
+Proof. exact removed_never. Qed.
+Print Assumptions C05_removed_never.
+
+(* Removal after completion does not affect the epoch: if every removal of the request happens at a
+   later send than its arrival and after its last sample had been sent, it is delivered exactly once,
+   with exactly its samples.  (C05_exact_once is the case without removals.) *)
+Theorem C05_removed_after_unaffected : forall B k n0 fs a r,
+  wf_sched B n0 fs = true -> arrives fs a r ->
+  (forall j, removed_at fs j (r_key r) -> (a < j)%nat /\ r_lo r + r_n r <= seen fs j) ->
+  r_lo r + r_n r <= zlen (stream_of fs) ->
+  count_key (r_key r) (delivered (run B k fs)) = 1 /\
+  In (s_item (stream_of fs) r) (delivered (run B k fs)) /\
+  (forall it, In it (delivered (run B k fs)) -> i_key it = r_key r -> it = s_item (stream_of fs) r).
+Proof. exact delivered_once. Qed.
+Print Assumptions C05_removed_after_unaffected.
+
+(* Every delivered epoch is the exact slice of some request of the schedule and carries that
+   request's own metadata identity (i_rid), key and start sample; none is a "missed" stub. *)
+Theorem C05_metadata : forall B k n0 fs, wf_sched B n0 fs = true ->
+  forall it, In it (delivered (run B k fs)) ->
+  exists a r, arrives fs a r /\ it = s_item (stream_of fs) r.
+Proof. exact delivered_sound. Qed.
+Print Assumptions C05_metadata.
+
+(* The all-done callback fires at most once - for every schedule whatsoever. *)
+Theorem C05_done_once : forall B k fs, fire_count (run B k fs) <= 1.
+Proof. exact done_at_most_once. Qed.
+Print Assumptions C05_done_once.
+
+(* It fires only at a send after which nothing is pending, with the source flagged complete, and not
+   after an earlier firing - for every schedule whatsoever. *)
+Theorem C05_done_only_when : forall B k fs j st b,
+  nth_error (trace B k xinit fs) j = Some (st, FOut b true) ->
+  pending st = [] /\ (exists f, nth_error fs j = Some f /\ f_complete f = true) /\
+  existsb fired (firstn j (run B k fs)) = false.
+Proof. exact done_only_when. Qed.
+Print Assumptions C05_done_only_when.
+
+(* ... at which, for a well-formed schedule, no request waits in the specification either: every
+   request made visible so far has been delivered or removed. *)
+Theorem C05_done_all_delivered : forall B k n0 fs j st b,
+  wf_sched B n0 fs = true ->
+  nth_error (trace B k xinit fs) j = Some (st, FOut b true) ->
+  exists s, nth_error (spec_trace B k sinit fs) j = Some (s, FOut b true) /\ s_wait s = [].
+Proof. exact done_means_all_delivered. Qed.
+Print Assumptions C05_done_all_delivered.
+
+(* It does fire: a send with the source complete and nothing pending that does not fire the callback
+   comes after the send that did. *)
+Theorem C05_done_fires : forall B k fs j st b f,
+  nth_error (trace B k xinit fs) j = Some (st, FOut b false) -> nth_error fs j = Some f ->
+  f_complete f = true -> pending st = [] ->
+  existsb fired (firstn j (run B k fs)) = true.
+Proof. exact done_fires. Qed.
+Print Assumptions C05_done_fires.
+
+(* The look-back precondition in the user's terms: it is enough that each request's first sample is
+   not older than B samples before the chunk being sent when the request becomes visible. *)
+Theorem C05_lookback_sufficient : forall B n0 fs,
+  (0 <=? B) && (0 <=? n0) && forallb (fun r => r_n r =? n0) (all_reqs fs) && nodupz (req_keys fs) &&
+  within_lookback B 0 fs && rems_ok fs = true -> wf_sched B n0 fs = true.
+Proof. exact lookback_ok. Qed.
+Print Assumptions C05_lookback_sufficient.
+
+(* ------------------------------------------------------------------------------------------------ *)
+(* The hypotheses are satisfiable: 14 samples in chunks of 3,4,1,4,2; look-back 3; epochs of 5 samples.
+   key 0: [2,7) asked before any data - spans three chunks;
+   key 1: [5,10) asked at send #3, when [3,8) has already gone by - replayed from the look-back;
+   key 2: [6,11) asked at send #1, removed at send #3 - its last sample (10) arrives with send #3;
+   key 3: [1,6) asked at send #0, removed at send #4 - after it was delivered. *)
+Definition ex_sched : list feed :=
+  [ mkfeed [10;11;12] [] [mkreq 0 2 5 100; mkreq 3 1 5 103] false;
+    mkfeed [13;14;15;16] [] [mkreq 2 6 5 102] false;
+    mkfeed [17] [] [] false;
+    mkfeed [18;19;20;21] [2] [mkreq 1 5 5 101] true;
+    mkfeed [22;23] [3] [] true ].
+
+Example C05_ex_wf : wf_sched 3 5 ex_sched = true.
+Proof. vm_compute. reflexivity. Qed.
+
+Example C05_ex_run : run 3 (mkkind true false) ex_sched =
+  [ FOut [] false;
+    FOut [ {| i_key := 0; i_rid := 100; i_s0 := 2; i_data := [12;13;14;15;16]; i_missed := false |};
+           {| i_key := 3; i_rid := 103; i_s0 := 1; i_data := [11;12;13;14;15]; i_missed := false |} ] false;
+    FOut [] false;
+    FOut [ {| i_key := 1; i_rid := 101; i_s0 := 5; i_data := [15;16;17;18;19]; i_missed := false |} ] true;
+    FOut [] false ].
+Proof. vm_compute. reflexivity. Qed.
+
+Example C05_ex_arrives : arrives ex_sched 3 (mkreq 1 5 5 101) /\ removed_at ex_sched 3 2 /\
+  (forall j, ~ removed_at ex_sched j 1) /\ seen ex_sched 3 = 8.
+Proof.
+  split; [eexists; split; [reflexivity|cbn; auto]|]. split; [eexists; split; [reflexivity|cbn; auto]|].
+  split; [|reflexivity].
+  intros j (f & E & H). do 5 (destruct j as [|j]; [inversion E; subst; cbn in H; intuition discriminate|]).
+  destruct j; discriminate.
+Qed.
+
+(* Outside the preconditions the model (hence the code) behaves as follows. *)
+(* a request whose start has left the look-back: an empty "missed" epoch is delivered *)
+Example C05_ex_missed : run 0 (mkkind false false)
+    [mkfeed [1;2] [] [] true; mkfeed [3;4] [] [] true; mkfeed [5;6] [] [mkreq 0 1 2 7] true] =
+  [FOut [] true; FOut [] false;
+   FOut [{| i_key := 0; i_rid := 7; i_s0 := 1; i_data := []; i_missed := true |}] false].
+Proof. vm_compute. reflexivity. Qed.
+(* epochs of different lengths completing in the same send cannot be stacked: the send raises *)
+Example C05_ex_unequal : run 0 (mkkind false false) [mkfeed [1;2;3;4] [] [mkreq 0 0 2 7; mkreq 1 1 3 8] true] =
+  [FErr EStack].
+Proof. vm_compute. reflexivity. Qed.
+(* a second pending request with the same (t0,key): ValueError *)
+Example C05_ex_duplicate : run 0 (mkkind false false) [mkfeed [1;2] [] [mkreq 0 1 5 7; mkreq 0 1 5 8] true] =
+  [FErr EDuplicate].
+Proof. vm_compute. reflexivity. Qed.
+(* a removal notice processed one send before its request is forgotten: the epoch is delivered *)
+Example C05_ex_early_removal : run 0 (mkkind false false)
+    [mkfeed [1;2] [0] [] true; mkfeed [3;4] [] [mkreq 0 2 2 7] true] =
+  [FOut [] true; FOut [{| i_key := 0; i_rid := 7; i_s0 := 2; i_data := [3;4]; i_missed := false |}] false].
+Proof. vm_compute. reflexivity. Qed.
